@@ -162,6 +162,18 @@ def run_case(case):
                 q = torch.randn(ld.shape, generator=g)
             return (r * out).sum() + (q * ld).sum()
 
+        if target in ("forward", "inverse"):
+            with torch.no_grad():
+                try:
+                    ld0 = (m.inverse(X, C) if target == "inverse" else m(X, C))[1]
+                except Exception:
+                    ld0 = None
+            if ld0 is not None and bool(torch.isfinite(ld0).all()) and float(ld0.abs().max()) > 20.0:
+                # the map stretches or squeezes by more than e^20: rounding in the parameters (1e-16) already moves the result by
+                # 1e-8 and more, finite differences cannot referee
+                res.labels.append("extreme_slope")
+                res.inconclusive += 1
+                return res
         params = [(nm, p) for nm, p in obj.named_parameters() if p.requires_grad]
         Xr = X.clone().requires_grad_(True)
         Cr = C.clone().requires_grad_(True) if C is not None else None
@@ -216,14 +228,19 @@ def run_case(case):
         class Dir:
             def __init__(self, kind, tensors, ds):
                 self.kind, self.tensors, self.ds = kind, tensors, ds
-                self.val = tensors[0].detach().clone() if kind in ("inputs", "context") else None
+                self.orig = [t.detach().clone() for t in tensors]
+                self.off = 0.0
+                self.val = self.orig[0].clone() if kind in ("inputs", "context") else None
 
             def __call__(self, step):
+                # positions are always original + offset * direction (offset returns to exactly 0.0): adding and subtracting
+                # steps in place would leave the parameters a rounding error away from where they started
+                self.off = self.off + step if abs(self.off + step) > 1e-12 * abs(step) else 0.0
                 if self.kind in ("inputs", "context"):
-                    self.val = self.val + step * self.ds[0]
+                    self.val = self.orig[0] + self.off * self.ds[0]
                 else:
-                    for t, d in zip(self.tensors, self.ds):
-                        t.add_(step * d)
+                    for t, o, d in zip(self.tensors, self.orig, self.ds):
+                        t.copy_(o + self.off * d)
 
         groups = [("inputs", [Xr], [grads[0]])]
         off = 1
